@@ -110,6 +110,11 @@ def run_property(spec, tier, seed):
     okgroups = {(shape(by_id[lf["sk"]]), ob["n"]) for lf, ob, _, _ in reproduced}
     not_reproduced = [x for x in not_reproduced if not ("model not rational" in x[2] and (shape(by_id[x[0]["sk"]]), x[1]["n"]) in okgroups)]
 
+    # ... nor when it falls into the role of a recorded known finding (it is then not reported as a violation anyway)
+    known0 = findings.load()
+    unreplayed_known = [x for x in not_reproduced if "model not rational" in x[2] and findings.match(known0, pid, by_id[x[0]["sk"]], x[0], x[1])]
+    not_reproduced = [x for x in not_reproduced if x not in unreplayed_known]
+
     # --- path witnesses
     wit_leaves = [lf for lf in leaves if lf.get("witness")]
     wit_ok = 0
@@ -229,6 +234,7 @@ def run_property(spec, tier, seed):
             "counterexamples_replayed": replayed,
             "counterexamples_reproduced": len(reproduced),
             "known_findings_hit": list(known_hits),
+            "known_role_refutations_without_model": len(unreplayed_known),
             "functions_encoded": spec["entry_points"],
             "bounds": spec["bounds"](tier),
             "outside_claim": spec.get("outside", []),
